@@ -12,7 +12,8 @@
                        UComplete. *)
 From Coq Require Import List NArith Bool Arith Ascii String.
 From Martian.C01 Require Import Model.
-From Martian.C03 Require Import Model Proofs.
+From Martian.C01 Require Import Proofs_Sched.
+From Martian.C03 Require Import Model Proofs Proofs_Audit.
 Import ListNotations.
 
 (* A failure before a complete response head — connection refused, non-HTTP
@@ -127,6 +128,70 @@ Theorem C03_model_satisfies_oracle : forall es, c03_ok es (model_obs true es) = 
 Proof. exact model_obs_ok. Qed.
 Print Assumptions C03_model_satisfies_oracle.
 
+(* "Whatever an origin does ... the client receives EITHER a 502 ... OR a
+   detectably incomplete response followed by close": every response the
+   client parses is exactly one of three things, decided by where the failure
+   fell, for every script. *)
+Theorem C03_every_response_is_502_or_complete_or_incomplete_then_close : forall es k p,
+  nth_error (fst (client_view true es)) k = Some p ->
+  exists e, nth_error (served3 es) k = Some e /\
+    match classify e with
+    | UFail => is_502 e p
+    | UComplete => is_relay e p
+    | UPartial d => is_partial e d p /\ S k = List.length (fst (client_view true es)) /\ snd (client_view true es) = true
+    end.
+Proof. exact trichotomy. Qed.
+Print Assumptions C03_every_response_is_502_or_complete_or_incomplete_then_close.
+
+Theorem C03_partial_content_length_body_is_proper_prefix : forall e d,
+  classify e = UPartial d -> q_framing (x_resp e) = FCL ->
+  exists j, d = firstn j (q_body (x_resp e)) /\ j < List.length (q_body (x_resp e)).
+Proof. exact partial_cl_is_prefix. Qed.
+Print Assumptions C03_partial_content_length_body_is_proper_prefix.
+
+(* Pipelined, partially pipelined or one at a time: for every arrival schedule
+   of the client's requests (handleLoop serves one request at a time - the
+   atomicity of LServe, as in C01), once nothing is left to do the client
+   parses exactly the specified view out of what the proxy wrote. *)
+Theorem C03_pipelining_changes_nothing : forall es ls st,
+  srun (h03 true) (sinit (indexed 0 es)) ls = Some st -> quiescent st ->
+  (client_parse (map x_nobody es) (List.concat (s_out st)) (s_closed st), s_closed st) = spec_view es.
+Proof. exact c03_schedule_independent. Qed.
+Print Assumptions C03_pipelining_changes_nothing.
+
+(* The Warning check of the oracle IS the RFC 7234 grammar: a PROPFAIL
+   warning_wellformed is a value outside it, an OK a value inside it. *)
+Theorem C03_warning_check_is_the_grammar : forall v, warning_ok v = true <-> WarnValue v.
+Proof. exact warning_ok_iff. Qed.
+Print Assumptions C03_warning_check_is_the_grammar.
+
+Theorem C03_quoted_string_scanner_is_the_grammar : forall x rest,
+  scan_qs false x = Some rest <-> exists b, QBody b /\ x = b ++ DQ :: rest.
+Proof. exact scan_qs_iff. Qed.
+Print Assumptions C03_quoted_string_scanner_is_the_grammar.
+
+Theorem C03_observed_warning_flag_is_the_clause : forall r,
+  o_warning (observe r) = true <-> (w_warnings r <> [] /\ Forall WarnValue (w_warnings r)).
+Proof. exact observe_warning_iff. Qed.
+Print Assumptions C03_observed_warning_flag_is_the_clause.
+
+(* Totalisation: the fuel of the chunked encoder / decoder in the model is
+   sufficient - the origin's chunked body decodes to exactly its body, for
+   every body and size list; a cut at or after the end is a complete response. *)
+Theorem C03_chunked_body_round_trip : forall r,
+  q_framing r = FChunked ->
+  dechunk (S (List.length (body_wire r))) (body_wire r) = (q_body r, true).
+Proof. exact body_wire_roundtrip. Qed.
+Print Assumptions C03_chunked_body_round_trip.
+
+Theorem C03_cut_at_end_is_complete : forall e k,
+  x_out e = OCut k -> x_connect e = false ->
+  q_headlen (x_resp e) + List.length (body_wire (x_resp e)) <= k ->
+  q_framing (x_resp e) <> FCloseDelimited ->
+  classify e = UComplete.
+Proof. exact cut_at_end_is_complete. Qed.
+Print Assumptions C03_cut_at_end_is_complete.
+
 (* Non-vacuity: ok / cut inside the head / dial refused / cut inside a chunked
    body, on one connection. *)
 Definition example3 : list exch3 :=
@@ -146,3 +211,30 @@ Example C03_example :
   snd (client_view true example3) = true /\
   c03_ok example3 (model_obs true example3) = true.
 Proof. vm_compute. repeat split; reflexivity. Qed.
+
+(* Non-vacuity of the hypotheses above *)
+Example C03_schedule_example :
+  exists st, srun (h03 true) (sinit (indexed 0 example3))
+                  [LArrive; LArrive; LArrive; LServe; LPartial; LArrive; LArrive; LServe; LArrive; LServe; LServe; LServe] = Some st /\
+             quiescent st /\ s_closed st = true /\ List.length (s_out st) = 5 /\ List.length (s_pending st) = 1.
+Proof. eexists. split; [vm_compute; reflexivity|]. vm_compute. repeat split; auto. Qed.
+
+Example C03_warning_example :
+  WarnValue (warning_value (list_ascii_of_string "malformed HTTP response ""x\y""")
+                           (list_ascii_of_string "Thu, 01 Jan 1970 00:00:00 GMT")).
+Proof. apply warning_ok_iff. apply warning_value_wellformed. Qed.
+
+Example C03_cut_at_end_example :
+  classify (mkEx3 1 false false false (OCut 66)
+              (mkResp3 200 FChunked (list_ascii_of_string "ab") [1] false 49) []) = UComplete /\
+  classify (mkEx3 1 false false false (OCut 63)
+              (mkResp3 200 FChunked (list_ascii_of_string "ab") [1] false 49) []) = UPartial (list_ascii_of_string "ab") /\
+  (exists j, list_ascii_of_string "abc" = firstn j (list_ascii_of_string "abcdefghij") /\ j < 10).
+Proof.
+  split; [vm_compute; reflexivity|]. split; [vm_compute; reflexivity|].
+  exists 3. split; [reflexivity|]. cbn. repeat constructor.
+Qed.
+
+Example C03_partial_content_length_example :
+  classify d2_first = UPartial (list_ascii_of_string "abc") /\ q_framing (x_resp d2_first) = FCL.
+Proof. vm_compute. split; reflexivity. Qed.
